@@ -349,10 +349,12 @@ def run_M(prop, st, tier, seed, work):
     """Miri shard: cargo +nightly miri test -p ktmiri <filter>."""
     env = base_env()
     env["CARGO_TARGET_DIR"] = os.path.join(CACHE, "target-miri")
-    env["MIRIFLAGS"] = MIRIFLAGS + " -Zmiri-env-forward=KTMIRI_SEED -Zmiri-env-forward=KTMIRI_N"
-    env["KTMIRI_SEED"] = str(seed)
-    n = st.get("n", {}).get(tier, 1) if isinstance(st.get("n"), dict) else st.get("n", 1)
-    env["KTMIRI_N"] = str(n)
+    n = st.get("n", {}).get(tier, 60) if isinstance(st.get("n"), dict) else st.get("n", 60)
+    # parameters go through -Zmiri-env-set: cargo-miri replays the environment captured when the test
+    # binary was first built, so plain environment variables would be stale
+    env["MIRIFLAGS"] = MIRIFLAGS + " -Zmiri-env-set=KTMIRI_SEED=%d -Zmiri-env-set=KTMIRI_N=%d" % (seed, n)
+    env.pop("KTMIRI_SEED", None)
+    env.pop("KTMIRI_N", None)
     filt = st["stage"].split(".", 1)[1] if st["stage"].startswith("miri.") else st["stage"]
     budget = st.get("budget", {}).get(tier, 900) if isinstance(st.get("budget"), dict) else st.get("budget", 900)
     args = ["cargo", "+nightly", "miri", "test", "-p", "ktmiri", "--", filt, "--nocapture", "--test-threads", str(st.get("test_threads", 8))]
